@@ -157,7 +157,7 @@ func VH_C11_timeoutNow() {
 	vAssume(r.state == Follower || r.state == Candidate)
 	r.leader = vU64("leader")
 	s0, l0, t0 := r.state, r.leader, r.term
-	res, err := r.onTimeoutNowRequest()
+	res, err := r.onTimeoutNowRequest(&timeoutNowReq{req{r.term, 9}})
 	nd, member := r.configs.Latest.Nodes[r.nid]
 	isVoter := member && nd.Voter
 	vAssert(err == nil, "no-error")
